@@ -54,7 +54,7 @@ def build(pid, log):
         mods = ['FCA.Props.' + pid]
         gen = os.path.join(LEAN, 'FCA', 'Props', pid + 'Gen.lean')
         have_gen = os.path.exists(gen)
-        gen_source = {'C08': 'Predicates', 'C16': 'Junctors', 'C12': 'Formats'}.get(pid)
+        gen_source = {'C08': 'Predicates', 'C16': 'Junctors', 'C12': 'Formats', 'C01': 'Loops'}.get(pid)
         declined = bool(gen_source) and str(info['extraction'].get(gen_source, '')).startswith('declined')
         if declined:
             info['notes'].append('extraction declined (%s): the theorems over the regenerated kernels are not checked against the '
@@ -218,6 +218,13 @@ def main():
     for hit in run.known_hits:
         print('KNOWN-FINDING: property=%s %s' % (pid, hit))
     if run.violation is not None:
+        try:
+            small = shrink(mod, pid, args.tier, seed, run.violation)
+        except Exception:
+            small = None
+        if small is not None:
+            small['shrunk_from'] = run.violation.get('requests', [])[:1]
+            run.violation = small
         run.violation['failed_theorems'] = info['failed']
         run.violation['tree'] = tree_hash()
         path = core.write_replay(pid, run.violation)
@@ -244,6 +251,68 @@ def main():
             pid, args.tier, run.evaluations, len(run.distinct), info['discharged'], info['obligations'],
             time.time() - t0, ' tie=correspondence-only' if info['failed'] else ''))
     return status
+
+
+def shrink(mod, pid, tier, seed, violation, budget=45):
+    """Minimise the failing context of a violation whose first request is a `ctx` line: delete rows / columns and
+    clear cells while the same observable still disagrees. Returns the smaller violation record or None."""
+    import core
+    import gen
+    reqs = violation.get('requests') or []
+    if not reqs or not str(reqs[0]).startswith('ctx '):
+        return None
+    parts = reqs[0].split()
+    n, m, rows = int(parts[1]), int(parts[2]), [int(x) for x in parts[3:]]
+    if len(rows) != n:
+        return None
+    key = str(violation.get('what', '')).split('(')[0][:40]
+    t_end = time.time() + budget
+    best = None
+
+    def fails(tab):
+        run = core.Run(pid, tier, seed)
+        run.known, run.known_hits = [], []
+        gen.ONLY = [tab]
+        try:
+            mod.run(run)
+        except core.Disagreement:
+            pass
+        except Exception:
+            run.violation = None
+        finally:
+            gen.ONLY = None
+            run.close()
+        v = run.violation
+        return v if v is not None and str(v.get('what', '')).split('(')[0][:40] == key else None
+
+    def candidates(n, m, rows):
+        for i in range(n):
+            if n > 1:
+                yield n - 1, m, rows[:i] + rows[i + 1:]
+        for j in range(m):
+            if m > 1:
+                low = (1 << j) - 1
+                yield n, m - 1, [(r & low) | ((r >> (j + 1)) << j) for r in rows]
+        for i in range(n):
+            for j in range(m):
+                if (rows[i] >> j) & 1:
+                    yield n, m, rows[:i] + [rows[i] & ~(1 << j)] + rows[i + 1:]
+
+    if fails((n, m, rows)) is None:
+        return None        # needs more than this one context (history, two live contexts, …): keep the original
+    progress = True
+    while progress and time.time() < t_end:
+        progress = False
+        for cand in candidates(n, m, rows):
+            if time.time() >= t_end:
+                break
+            v = fails(cand)
+            if v is not None:
+                n, m, rows = cand
+                best = v
+                progress = True
+                break
+    return best
 
 
 def core_replay(rec):
